@@ -64,25 +64,28 @@ CLAIMED = {
          "Vec-based definitions on the implementation. permute is refuted (known finding, pinned by test_permute_1).",
          "6/C24", "Coq proof: unbounded soundness of append/member via the declarative semantics + exhaustive evaluation over a stated finite scope + all-modes instance oracle",
          "Completeness is proved only over the stated finite scope; rember/member1/distinct (which use !=) have bounded theorems only."),
- "C16": ("PARTIAL. Proved for ALL states with well-formed domains, all operands (ground, partly bound, unbound) and every constraint kind "
-         "(ltefd, plusfd, minusfd, timesfd, diseqfd, distinctfd read as pairwise-different elements, and the CLP(Z)/tree kinds): posting a constraint or a domain, and re-running the "
-         "store after the substitution grew, yield a state ALL of whose integer solutions satisfy the posted constraint and every constraint "
-         "and domain of the state before (FDDen: post_constraint_FC, post_domain_FD, run_constraints_F), whether the propagator decided, pruned, "
-         "dropped or bound; plus exact ground decisions per propagator. Not proved: the same for `==` between two domain variables "
-         "(process_extension_fd) and the lift through goals to whole programs; those are decided by brute-force enumeration of the domain "
-         "product on generated programs, with the answer multiset also compared with the model.",
-         "6/C16", "Coq proof of semantic soundness of every FD state operation (any operands) + exact ground decisions + brute-force domain-product oracle + differential correspondence",
-         "The == path on domain variables and the whole-program lift are not mechanised."),
+ "C16": ("Proved for WHOLE PROGRAMS (FDProg.fd_delivered_sound): for all relation definitions and goals whose written domains are well-formed, "
+         "all search strategies and fuel, every valuation that solves an answer state Solver::next delivers (before reification) satisfies "
+         "the logical reading of the program - every posted ltefd/plusfd/minusfd/timesfd/diseqfd/distinctfd/CLP(Z) constraint as its integer "
+         "relation, every posted domain as membership, == as equality, != as difference - and solves the state the program started from. "
+         "Underneath, for ALL states with well-formed domains and acyclic substitutions, all operands: post_constraint, post_domain, the store "
+         "re-run and == (including the hand-over of the domains of newly bound variables) yield a state all of whose solutions satisfy the "
+         "posted constraint and everything stored before (FDDen, FDEq), whether the propagator decided, pruned, dropped or bound; plus exact "
+         "ground decisions per propagator. The reification step and the Rust-side hash order are outside; the tie to the code is the "
+         "brute-force enumeration of the domain product on generated programs, with the answer multiset also compared with the model.",
+         "6/C16", "Coq proof of whole-program soundness of CLP(FD) (logical reading of every posted constraint holds in every solution of every delivered answer) + brute-force domain-product oracle + differential correspondence",
+         "The theorem is about the model (hand-written, step-exact against the implementation on generated programs); reified answers are related to the pre-reification state by C03."),
  "C17": ("PARTIAL. Proved for ALL states with well-formed domains, every constraint kind and any operands: posting a constraint, posting a "
          "domain and re-running the store lose no solution - every valuation that solves the state and satisfies the constraint (arithmetic "
          "values within isize, the guard of the property) solves the returned state, through all prunings, singleton bindings, nested re-runs "
          "and constraint drops; failure is returned only when no such valuation exists (FDComp: post_constraint_C, post_domain_C, "
          "run_constraints_C). The pruning intervals contain every solution value (all signs, saturation, corner hull, quotient only for "
-         "non-negative domains), and labeling enumerates each domain value once. Not proved: the same for `==` between two domain "
-         "variables and the lift through goals and labeling to whole programs; completeness and uniqueness over whole programs are decided "
+         "non-negative domains), and labeling enumerates each domain value once. `==` between domain variables loses no solution either "
+         "(FDEq.state_unify_C: the domain of each newly bound variable is intersected into the term it was bound to). Not proved: the lift "
+         "through the search (fairness) and labeling to whole programs; completeness and uniqueness over whole programs are decided "
          "against brute force (query variables, lists, compounds, hidden variables).",
          "6/C17", "Coq proof that no state operation loses a solution (all constraint kinds, any operands) + brute-force projection oracle + differential correspondence",
-         "The == path on domain variables and the whole-program lift (labeling order, uniqueness) are not mechanised."),
+         "The whole-program lift of completeness (search fairness, labeling order, uniqueness) is not mechanised."),
  "C19": ("Theorems by case analysis on groundness, for all states and operands: all ground = decided exactly; two ground = the third bound to "
          "the unique solution (division exact and divisor non-zero), failure when none exists, constraint kept when every integer works; fewer "
          "ground = kept (including all three unbound); never a panic outcome. Semantically, as posted goals on any state: every solution of "
